@@ -347,15 +347,17 @@ Lemma touches_comp_other : forall ow o s p,
   In s (comp_steps ow o) -> (forall f, p <> PFile o f) -> touches s p = false.
 Proof.
   intros ow o s p Hin Hp. unfold comp_steps in Hin.
-  destruct ow; cbn in Hin; intuition; subst; cbn;
-    repeat rewrite path_eqb_neq by auto; reflexivity.
+  destruct ow; cbn in Hin;
+    repeat (destruct Hin as [<-|Hin]; [cbn; repeat rewrite path_eqb_neq by apply Hp; reflexivity|]);
+    destruct Hin.
 Qed.
 
 Lemma touches_comp_meta : forall ow o s o', In s (comp_steps ow o) -> touches s (PFile o' FMeta) = false.
 Proof.
   intros ow o s o' Hin. unfold comp_steps in Hin.
-  destruct ow; cbn in Hin; intuition; subst; cbn;
-    repeat rewrite path_eqb_neq by congruence; reflexivity.
+  destruct ow; cbn in Hin;
+    repeat (destruct Hin as [<-|Hin]; [cbn; repeat rewrite path_eqb_neq by congruence; reflexivity|]);
+    destruct Hin.
 Qed.
 
 Definition compk (ow : bool) (k : nat) : list step :=
